@@ -450,17 +450,27 @@ func (f *refFS) walk(d *rdir, seen map[*rdir]bool, out *[]rrep, owner *[]*rdir) 
 		*owner = append(*owner, d)
 		return
 	}
-	for _, e := range d.ents {
+	for _, e := range d.sorted() {
 		if !e.isDir() {
 			*out = append(*out, rrep{name: e.name, leaf: e.leaf})
 			*owner = append(*owner, d)
 		}
 	}
-	for _, e := range d.ents {
+	for _, e := range d.sorted() {
 		if e.isDir() {
 			f.walk(e.dir, seen, out, owner)
 		}
 	}
+}
+
+// sorted returns the entries in the order in which they were put there.
+func (d *rdir) sorted() []*rent {
+	es := make([]*rent, 0, len(d.ents))
+	for _, e := range d.ents {
+		es = append(es, e)
+	}
+	sort.Slice(es, func(i, j int) bool { return es[i].gen < es[j].gen })
+	return es
 }
 
 // gens is the set of entries of a directory, by attach generation.
